@@ -4,16 +4,16 @@ CONSTANTS
   Realms = {"ra"}
   RS = {"p"}
   Slots = {1}
-  CfgSet <- CfgTime
-  OfferSets <- OffersSmall
-  Lives = {0, 2, 4}
+  CfgSet <- CfgTime1
+  OfferSets <- OffersTime
+  Lives = {0, 2}
   TPS = 2
   MaxClock = 4
-  MaxCalls = 2
+  MaxCalls = 3
   MaxTok = 2
   MaxRT = 2
   Bodies = {"plain"}
   Statuses <- StatusFew
-  TickWhile = {"idle", "resp1wait", "resp2wait", "tokwait"}
+  TickWhile = {"idle"}
 INVARIANT Inv
 CHECK_DEADLOCK FALSE
